@@ -263,6 +263,69 @@ pub fn drain_checked<I: Iterator>(mut it: I, expect: usize, what: &str) -> Resul
     Ok(out)
 }
 
+/// Iteration is more than `next`: `nth`, `skip`, `step_by`, `count` and `last` (which a type
+/// may override) must describe the same sequence. `mk` makes a fresh iterator over an item of
+/// `n` elements, `same(k, x)` judges whether `x` is element `k`.
+pub fn adaptors_checked<I: Iterator>(mk: impl Fn() -> I, n: usize, what: &str, same: &dyn Fn(usize, I::Item) -> Result<(), String>) -> Result<(), String> {
+    if n > 96 {
+        return Ok(());
+    }
+    let mut ks = vec![0usize, 1, n / 2, n.saturating_sub(1), n, n + 3];
+    ks.dedup();
+    for &k in &ks {
+        // nth(k), then the iterator continues behind element k
+        let mut it = mk();
+        match it.nth(k) {
+            Some(x) if k < n => same(k, x).map_err(|e| format!("{what}: nth({k}): {e}"))?,
+            Some(_) => return Err(format!("{what}: nth({k}) on {n} elements yields an element")),
+            None if k < n => return Err(format!("{what}: nth({k}) on {n} elements yields None")),
+            None => {}
+        }
+        match it.next() {
+            Some(x) if k + 1 < n => same(k + 1, x).map_err(|e| format!("{what}: next() after nth({k}): {e}"))?,
+            Some(_) => return Err(format!("{what}: next() after nth({k}) on {n} elements yields an element")),
+            None if k + 1 < n => return Err(format!("{what}: next() after nth({k}) on {n} elements yields None")),
+            None => {}
+        }
+        // skip(k): elements k.. in order, nothing else
+        let mut seen = 0usize;
+        for (j, x) in mk().skip(k).enumerate() {
+            if k + j >= n {
+                return Err(format!("{what}: skip({k}) on {n} elements yields more than {} elements", n.saturating_sub(k)));
+            }
+            same(k + j, x).map_err(|e| format!("{what}: skip({k}) element {j}: {e}"))?;
+            seen += 1;
+        }
+        if seen != n.saturating_sub(k) {
+            return Err(format!("{what}: skip({k}) on {n} elements yields {seen} elements"));
+        }
+    }
+    for step in [2usize, 3] {
+        let mut seen = 0usize;
+        for (j, x) in mk().step_by(step).enumerate() {
+            if j * step >= n {
+                return Err(format!("{what}: step_by({step}) on {n} elements yields too many elements"));
+            }
+            same(j * step, x).map_err(|e| format!("{what}: step_by({step}) element {j}: {e}"))?;
+            seen += 1;
+        }
+        if seen != (n + step - 1) / step {
+            return Err(format!("{what}: step_by({step}) on {n} elements yields {seen} elements"));
+        }
+    }
+    let c = mk().count();
+    if c != n {
+        return Err(format!("{what}: count() = {c} on {n} elements"));
+    }
+    match mk().last() {
+        Some(x) if n > 0 => same(n - 1, x).map_err(|e| format!("{what}: last(): {e}"))?,
+        Some(_) => return Err(format!("{what}: last() on an empty item yields an element")),
+        None if n > 0 => return Err(format!("{what}: last() on {n} elements yields None")),
+        None => {}
+    }
+    Ok(())
+}
+
 pub const OOB_OFFSETS: [usize; 4] = [0, 1, 7, usize::MAX];
 
 /// Probes positions >= len; every one must panic.
@@ -310,6 +373,14 @@ where
                 return mismatch(&format!("iter element {i}"), o.render(), want.render());
             }
         }
+        adaptors_checked(|| this.iter(), v.len(), "ReadSlice::iter", &|k, x| {
+            let o: R::Owned = IntoOwned::into_owned(x);
+            if o.same(&v[k]) {
+                Ok(())
+            } else {
+                mismatch(&format!("element {k}"), o.render(), v[k].render())
+            }
+        })?;
         let items = drain_checked(this.into_iter(), v.len(), "ReadSlice::into_iter")?;
         if items.len() != v.len() {
             return Err("into_iter length".into());
@@ -362,6 +433,14 @@ where
                 return mismatch(&format!("row iter cell {i}"), o.render(), want.render());
             }
         }
+        adaptors_checked(|| (&this).into_iter(), v.len(), "ReadColumns::iter", &|k, x| {
+            let o: R::Owned = IntoOwned::into_owned(x);
+            if o.same(&v[k]) {
+                Ok(())
+            } else {
+                mismatch(&format!("cell {k}"), o.render(), v[k].render())
+            }
+        })?;
         let o = IntoOwned::into_owned(this);
         if !o.same(v) {
             return mismatch("ReadColumns::into_owned", o.render(), v.render());
